@@ -810,7 +810,13 @@ class GroupCoordinator(BaseCoordinator):
             if idle_time < self._max_poll_interval:
                 sleep_time = min(sleep_time, self._max_poll_interval - idle_time)
             else:
-                await self._maybe_leave_group()
+                try:
+                    await self._maybe_leave_group()
+                except asyncio.CancelledError:
+                    # Same as above: ``_stop_heartbeat_task()`` awaits this
+                    # task, a cancelled task would cancel the coordination
+                    # routine along with it.
+                    break
 
         log.debug("Stopping heartbeat task")
 
